@@ -119,7 +119,16 @@ def harness(binary, records, timeout=600, env=None):
         p = subprocess.run([binary], input=data, timeout=timeout, stdout=subprocess.PIPE, stderr=subprocess.PIPE, text=True, env=e)
     except subprocess.TimeoutExpired:
         raise Infra("harness timed out: " + binary)
-    outs = [json.loads(l) for l in p.stdout.splitlines() if l.startswith("{")]
+    outs = []
+    for l in p.stdout.splitlines():
+        if not l.startswith("{"):
+            continue
+        try:
+            outs.append(json.loads(l))
+        except ValueError:
+            if p.returncode == 0:
+                raise Infra("harness produced an unparsable line: " + l[:200])
+            break           # the process died in the middle of a line: everything before it is valid
     return outs, p.returncode, p.stderr
 
 
